@@ -144,6 +144,18 @@ def step (s : DState) : List String → DState × String
     match decChans cs with
     | some cs => (s, enc (dumpChannels cs))
     | none => (s, "bad-op")
+  | ["c_storable", cs] =>
+    match decChans cs with
+    | some cs => (s, encB (storableChans (env) cs))
+    | none => (s, "bad-op")
+  | ["n_storable", ns] =>
+    match decNets ns with
+    | some ns => (s, encB (storableNets (env) ns))
+    | none => (s, "bad-op")
+  | ["i_storable", now, es] =>
+    match decN now, decEntries decN es with
+    | some now, some es => (s, encB (storableIgnores now es))
+    | _, _ => (s, "bad-op")
   | ["c_load", t] =>
     match dec t with
     | some t =>
